@@ -356,6 +356,135 @@ fn writer_prefix_case(t: &mut Tctx, shape: &Shape, val: &Val, plain: &[u8], sche
     }
 }
 
+/// A text produced piecewise by `Display` and serialised through `collect_str`.
+struct FmtPieces(Vec<String>);
+impl std::fmt::Display for FmtPieces {
+    fn fmt(&self, f: &mut std::fmt::Formatter<'_>) -> std::fmt::Result {
+        for p in &self.0 {
+            f.write_str(p)?;
+        }
+        Ok(())
+    }
+}
+impl serde::Serialize for FmtPieces {
+    fn serialize<S: serde::Serializer>(&self, s: S) -> Result<S::Ok, S::Error> {
+        s.collect_str(self)
+    }
+}
+
+#[derive(Clone, Copy, Debug)]
+enum Picky {
+    /// exactly one hard error, on the first write at or after offset k; later writes succeed
+    GlitchAt(usize),
+    /// a bounded all-or-nothing sink: a write that does not fit entirely is refused, a later smaller one is accepted
+    AllOrNothing(usize),
+}
+struct PickySink<'a> {
+    mode: Picky,
+    refused: &'a std::cell::Cell<u32>,
+    sink: &'a std::cell::RefCell<Vec<u8>>,
+}
+impl std::io::Write for PickySink<'_> {
+    fn write(&mut self, buf: &[u8]) -> std::io::Result<usize> {
+        if buf.is_empty() {
+            return Ok(0);
+        }
+        let at = self.sink.borrow().len();
+        let refuse = match self.mode {
+            Picky::GlitchAt(k) => at >= k && self.refused.get() == 0,
+            Picky::AllOrNothing(cap) => at + buf.len() > cap,
+        };
+        if refuse {
+            self.refused.set(self.refused.get() + 1);
+            return Err(std::io::Error::new(std::io::ErrorKind::Other, "refused"));
+        }
+        self.sink.borrow_mut().extend_from_slice(buf);
+        Ok(buf.len())
+    }
+    fn flush(&mut self) -> std::io::Result<()> {
+        Ok(())
+    }
+}
+
+/// Writers that refuse one write and accept later ones: whatever the value (incl. text formatted piecewise
+/// through collect_str), a refusal must surface as an error and the sink must hold a prefix of the encoding.
+fn picky_writer_cases<T: serde::Serialize>(t: &mut Tctx, what: &str, v: &T, plain: &[u8]) {
+    let l = plain.len();
+    for k in 0..=l + 1 {
+        for mode in [Picky::GlitchAt(k), Picky::AllOrNothing(k)] {
+            t.st.eval();
+            t.st.count("picky_writer_cases");
+            let refused = std::cell::Cell::new(0u32);
+            let sink = std::cell::RefCell::new(Vec::new());
+            let r = catch(|| postcard::to_io(v, PickySink { mode, refused: &refused, sink: &sink }).map(|_| ()));
+            let got = sink.borrow().clone();
+            let rp = || vec![kv("kind", "c11-picky"), kv("what", what), kv("mode", format!("{:?}", mode)), kv("plain", hex(plain))];
+            match r {
+                Err(p) => t.st.violation("C11:writer-panic", format!("{}: a writer refusing one write ({:?}) made serialisation panic: {}", what, mode, p), rp()),
+                Ok(res) => {
+                    if refused.get() > 0 {
+                        t.st.count("picky_writer_refusals");
+                        if res.is_ok() {
+                            t.st.violation("C11:writer-failure-swallowed", format!("{}: the writer refused a write ({:?}) but serialisation reported success", what, mode), rp());
+                        } else if got.len() > l || plain[..got.len()] != got[..] {
+                            t.st.violation(
+                                "C11:writer-wrote-non-prefix",
+                                format!("{}: writer refusing one write ({:?}, {} refusals): received {} which is not a prefix of the plain encoding {}", what, mode, refused.get(), hexs(&got), hexs(plain)),
+                                rp(),
+                            );
+                        }
+                    } else if res.is_err() || got != plain {
+                        t.st.violation("C11:writer-bytes-differ", format!("{}: no write was refused ({:?}) yet the result is {:?} with {} received", what, mode, res.map_err(|e| err_label(&e)), hexs(&got)), rp());
+                    }
+                }
+            }
+        }
+    }
+}
+
+fn picky_lane(t: &mut Tctx) {
+    let n = t.cfg.scale(2, 300, 6000);
+    for i in 0..n {
+        if t.cfg.expired() {
+            break;
+        }
+        // formatted text: 1..6 pieces of assorted sizes (the encoder learns the length in a first formatting pass)
+        let np = t.rng.range(1, 6);
+        let pieces: Vec<String> = (0..np)
+            .map(|_| match t.rng.below(4) {
+                0 => String::new(),
+                1 => gen_string(&mut t.rng, 40),
+                _ => gen_string(&mut t.rng, 6),
+            })
+            .collect();
+        let text: String = pieces.concat();
+        let plain = spec::encode(&Val::Str(text.clone()));
+        if plain.len() > 200 {
+            continue;
+        }
+        t.st.count("formatted_text_values");
+        picky_writer_cases(t, "collect_str", &FmtPieces(pieces.clone()), &plain);
+        let pre = t.rng.next() as u8;
+        let post = gen_uint(&mut t.rng, 16) as u16;
+        let mut wrapped = vec![pre];
+        wrapped.extend_from_slice(&plain);
+        crate::spec::varint(post as u128, &mut wrapped);
+        picky_writer_cases(t, "collect_str-in-tuple", &(pre, FmtPieces(pieces), post), &wrapped);
+        // an ordinary value as well
+        if i % 2 == 0 {
+            let shape = Shape::Tuple(vec![Shape::Str, Shape::U32, Shape::Bytes, Shape::Seq(Box::new(Shape::Str))]);
+            let val = {
+                let mut g = ValGen::small(&mut t.rng);
+                g.max_len = 3;
+                g.max_str = 12;
+                g.gen(&shape)
+            };
+            let p = spec::encode(&val);
+            picky_writer_cases(t, "ordinary", &val, &p);
+        }
+    }
+}
+
 struct ReadOutcome {
     val: Val,
     delivered: usize,
@@ -751,10 +880,13 @@ pub fn run(cfg: &Cfg) -> Report {
         }
     });
     rep.stats.merge(s);
+    let s = parallel(cfg, 2, |t| picky_lane(t));
+    rep.stats.merge(s);
+    rep.floor("picky_writer_refusals", 100);
     rep.rule = format!(
         "cases = (value, adapter, schedule, fault, scratch size, placement): random-shape values (borrow-heavy shapes over-represented); adapters std::io and {}; schedules 1-byte, random short, whole; \
          writer failure at EVERY byte offset 0..L+1 (plus flush failure, Interrupted), reader failure and EOF at every offset, scratch sizes 0..required+1 with the scratch flush against a guard page on either side; \
-         sequences of 2..5 messages on one stream. distinct = fingerprint of (shape, value, schedule, adapter, fault offset / scratch size).",
+         sequences of 2..5 messages on one stream; writers that refuse exactly one write (a one-shot error at every offset; an all-or-nothing bounded sink of every capacity) under ordinary values and text formatted piecewise through collect_str. distinct = fingerprint of (shape, value, schedule, adapter, fault offset / scratch size).",
         EIO_VERSION
     );
     rep.assumptions = vec![
